@@ -178,6 +178,11 @@ func genC03(c *Ctx) error {
 				ac, _ = aw.c03BaseFor("tt", "tt", "staging", route, acc, "a"+strconv.Itoa(aw.tag), "bb7")
 				ac.tampered = true
 				emit(ac, "signed_for_other_channel")
+				// ... for a channel whose name differs from this one's by letter case only
+				aw.tag++
+				ac, _ = aw.c03BaseFor("tt", "tt", "TT", route, acc, "a"+strconv.Itoa(aw.tag), "bb7")
+				ac.tampered = true
+				emit(ac, "signed_for_channel_in_other_case")
 				aw.tag++
 				ac, _ = aw.c03BaseFor("tt", "fiat", "tt", route, acc, "a"+strconv.Itoa(aw.tag), "bb7")
 				emit(ac, "signed_for_other_chaincode")
